@@ -199,16 +199,51 @@ def runner(ctx):
             widened = any(e[0] == "loop_widened" for e in evs)
             if not widened and len(calls) > len(nexts):
                 bad = bad or "more hook calls than elements taken from the iterator"
-            # exit conditions
-            if not is_err(o) and nexts and not any(e[0] == "next" and e[1] == "none" for e in evs):
-                # left the loop early with Ok: must be because finished or Handled was observed
-                early = False
-                for c in o.path.conds:
-                    s = repr(c[0])
-                    if "finished" in s or "HookResult" in s or "'Eq'" in s:
-                        early = True
-                if not early:
-                    bad = bad or "early success exit without testing finished / Handled"
+        # exit conditions, per class of what the hook returned and whether execution finished meanwhile: the runner is
+        # interpreted with the hook call answering Handled / Unhandled / Err and `finished` read afterwards as a constant
+        HR = "state::hooks::HookResult"
+        hv, uv = facts.enum_variant_by_name(HR, "Handled"), facts.enum_variant_by_name(HR, "Unhandled")
+        FIN = ("field", ("field", ("init", "self", 0), "state"), "finished")
+        for cls, val in (("Handled", A.OK(("agg", "adt:" + HR, hv[0], ()))), ("Unhandled", A.OK(("agg", "adt:" + HR, uv[0], ()))),
+                         ("Err", A.ERR(("hook_error",)))):
+            for fin in (0, 1):
+                def icpt3(I, path, frame, t, name, args, val=val):
+                    if (t["f"].get("def") or "").startswith("std::ops::Fn") and "dyn" in " ".join(t["f"].get("gargs", [])):
+                        path.events.append(("hook_call",))
+                        return [(val, path)]
+                    return icpt2(I, path, frame, t, name, args)
+                I3 = A.Interp(facts, intercept=icpt3,
+                              may_inline=lambda n, b: (b["kind"] == "Closure" and not b.get("coroutine")) or
+                              (b.get("impl_trait") or "").startswith("std::convert::From<"))
+                I3.intercept_fn_calls = True
+                p0 = A.Path()
+                p0.assume = {FIN: [fin] + [0] * 7}
+                try:
+                    po = [o for o in I3.run(rf, [hookref, A.INT(bval, 8), P.self_ref(True), ("mnem",)], p0) if o.kind == "return"]
+                    outs3 = list(I3.run(facts.bodies[po[0].value[1][len("coroutine:"):]], [po[0].value, ("resume_ctx",)], po[0].path))
+                except (KeyError, IndexError) as e:
+                    bad = bad or "cannot interpret the runner per class: %s" % e
+                    continue
+                for o in outs3:
+                    if o.kind != "return":
+                        continue
+                    evs = o.path.events
+                    ci = [i for i, e in enumerate(evs) if e[0] == "hook_call"]
+                    if not ci:
+                        continue
+                    after = evs[ci[0] + 1:]
+                    went_on = any(e[0] == "next" for e in after) or any(e[0] == "hook_call" for e in after)
+                    if cls == "Err":
+                        if went_on or not is_err(o):
+                            bad = bad or "a failing hook does not end the chain with its error"
+                    elif cls == "Handled" or fin:
+                        if went_on:
+                            bad = bad or "the chain goes on after %s" % ("Handled" if cls == "Handled" else "execution finished")
+                        elif is_err(o):
+                            bad = bad or "%s ends the chain with an error" % cls
+                    else:
+                        if not went_on and not any(e[0] == "loop_widened" for e in after):
+                            bad = bad or "an Unhandled result ends the chain although execution goes on"
         if not any("Iter" in e[2] or "Vec" in e[2] for o in outs for e in o.path.events if e[0] == "iterate"):
             bad = bad or "the runner does not iterate a Vec/slice"
         if bad:
@@ -280,6 +315,9 @@ def guard(ctx):
             def icpt(I, path, frame, t, name, args):
                 if name in facts.bodies and facts.bodies[name].get("impl_self") == AXE and name != b["path"] \
                         and facts.bodies[name]["kind"] != "Closure":
+                    l1 = facts.bodies[name]["locals"][1] if facts.bodies[name]["argc"] >= 1 else None
+                    if isinstance(l1, list) and l1[0] == "ref" and not l1[1]:
+                        return None  # a `&self` helper cannot mutate: interpreted like inline code (e.g. an extracted guard)
                     path.events.append(("crate_call", name))
                     p2 = path.copy()
                     return [(A.OK(A.UNIT), path), (A.ERR(("e",)), p2)]
